@@ -201,6 +201,11 @@ def run_shard(sh, ctx):
 							if not pd.exists() and not pd.is_symlink():
 								_wfd(pd, [bytes(rng.choice(b'ACGT') for _ in range(rng.randint(300, 900)))], gz=G.items[i_]['name'].endswith('.gz'))
 						ctx.count('listfile_runs_with_same_named_decoys_in_cwd')
+					if (rnd + trial + len(qidx)) % 2 == 1:
+						# the output path already holds the (much larger) matrix of an earlier run: the new table replaces it
+						rows_ = [','.join(['old'] + [f'ref{j_}' for j_ in range(12)])] + [','.join([f'oldquery{i_}'] + ['0.1234'] * 12) for i_ in range(40)]
+						out.write_text('\n'.join(rows_) + '\n')
+						ctx.count('runs_with_existing_larger_output_file')
 					code, so, se, exc = clidrv.run_inproc(cmd, cwd=run_cwd)
 					w_ = dict(query_channel=qch, ref_channel=rch, k=eff[0], prefix=eff[1], explicit=explicit, cores=cores, qlabels=qlabels[:8], rlabels=rlabels[:8],
 					          args=[str(a) for a in cmd][:40], stderr=se[-200:], exc=exc)
@@ -244,7 +249,7 @@ def finalize(merged, tier, seed, inconclusive):
 		for r in RCH:
 			if c.get(f'channels:{q}/{r}', 0) == 0:
 				inconclusive.append(f'channel combination never run: {q}/{r}')
-	for n in ['params:explicit', 'params:inferred-or-default', 'cores:16', 'cores:None', 'square_vs_both_sides', 'same_labels_different_genomes_runs']:
+	for n in ['params:explicit', 'params:inferred-or-default', 'cores:16', 'cores:None', 'square_vs_both_sides', 'same_labels_different_genomes_runs', 'runs_with_existing_larger_output_file']:
 		if c.get(n, 0) == 0:
 			inconclusive.append(f'class never observed: {n}')
 	return dict(exhaustive=False)
